@@ -104,6 +104,16 @@ ArrTok(elems, inner) == Tok(<<91>> \o inner \o Concat([i \in 1..Len(elems) |-> e
 \* open-ended ranges, only at the end of arrays: "[1 2 ...]" continues with the delta, "[1 1 ...]" and "[0.5 1 ...]"-like (different types) repeat
 ArrOpen2(a, b) == Tok(<<91>> \o Dec(a) \o <<32>> \o Dec(b) \o <<32, 46, 46, 46, 93>>,
                       << [t |-> "a", el |-> <<IV(a), [t |-> "...", v |-> [i \in 1..3 |-> IV(b + (i - 1) * (b - a))]]>>] >>)
+\* the other documented open-ended forms: "[x ...]", "[x x ...]" (delta-less: the same element repeated), "[y x ...]" with y of another type
+\* than x (no suiting left-of-left-hand sign: delta-less as well), for ANY element type ("arrays can contain any types of elements")
+ArrOpenRep(pre, x) == Tok(<<91>> \o Concat([i \in 1..Len(pre) |-> pre[i].txt \o <<32>>]) \o x.txt \o <<32, 46, 46, 46, 93>>,
+                          << [t |-> "a", el |-> Concat([i \in 1..Len(pre) |-> pre[i].val]) \o << [t |-> "...", v |-> <<x.val[1], x.val[1], x.val[1]>>] >>] >>)
+\* "[true false ...]": a left-of-left-hand sign of the same type that differs - the manual defines the delta for numbers only, so WHAT the
+\* range continues with is not documented (value "any"); that checker and scanner agree on the number of cells, that the text is consumed and
+\* that the result prints and scans back equal still is
+AnyV == [t |-> "any", v |-> <<>>]
+ArrOpenAny(pre, x) == Tok(<<91>> \o Concat([i \in 1..Len(pre) |-> pre[i].txt \o <<32>>]) \o x.txt \o <<32, 46, 46, 46, 93>>,
+                          << [t |-> "a", el |-> Concat([i \in 1..Len(pre) |-> pre[i].val]) \o << [t |-> "...", v |-> <<AnyV, AnyV, AnyV>>] >>] >>)
 \* separators: " ", "  ", newline, " % c\n", newline + indentation
 Seps == { <<32>>, <<32, 32>>, <<10>>, <<32, 37, 32, 99, 10>>, <<10, 32, 32, 32, 32>> }
 Trailers == { <<>>, <<32>>, <<10>>, <<32, 37, 99>> }
